@@ -1417,8 +1417,12 @@ private:
     {
       const std::streamoff recordStart = log.tellg();
       uint32_t totalLen = 0;
+      // A record frames op + key + expiry + value + CRC: the largest legal one is a
+      // maximal value AND a maximal key plus 21 bytes of framing, so the sanity bound
+      // must sit above MAX_VALUE_LENGTH (a bound of exactly MAX_VALUE_LENGTH made every
+      // record whose value is within ~20 bytes of the maximum unreadable on restart).
       if (!log.read(reinterpret_cast<char *>(&totalLen), sizeof(totalLen)) || totalLen < 10 ||
-          totalLen > 100 * 1024 * 1024)
+          totalLen > MAX_VALUE_LENGTH + 65536 + 64)
       {
         tornAt = recordStart;
         break; // Invalid or corrupted entry
